@@ -447,6 +447,8 @@ func allChecks() []CheckSpec {
 					Bounds: "0..2 (thorough 0..3) extensions with keys/values of 1..2 printable ASCII bytes (symbolic), any TCP type", MustReach: []string{"done"}},
 				{Fn: "verifC16RoundTrip", Lemma: "UnmarshalCandidate(c.Marshal()) has the same component, priority, port, type, transport, address, TCP type, foundation, related address and is Equal to c",
 					Bounds: "candidates as in verifC16Equality with symbolic port/component/priority/related port rendered through a symbolic %d (digit-count case split) and one symbolic extension", MustReach: []string{"related", "done"}},
+				{Fn: "verifC16FoundationRoundTrip", Lemma: "an explicit foundation (any ice-chars) survives Marshal then UnmarshalCandidate byte for byte, with and without the optional candidate: prefix; the re-marshalled text is identical and the parsed candidate is Equal",
+					Bounds: "foundations of 1..2 (thorough 1..3) symbolic ice-chars (ALPHA / DIGIT / + / /) on one host UDP IPv4 candidate", MustReach: []string{"prefixed", "done"}},
 				{Fn: "verifC16ParseAny", Lemma: "UnmarshalCandidate on arbitrary text never panics; accepted text re-marshals to text that parses to an Equal candidate",
 					Bounds: "three prefixes (two valid candidates, empty) followed by any 0..3 (thorough 0..5) bytes", MustReach: []string{"accepted", "done"}},
 			},
@@ -603,6 +605,8 @@ func allChecks() []CheckSpec {
 					Bounds: "2 pairs, symbolic priorities and nomination values (24 bit)", MustReach: []string{"done"}},
 				{Fn: "verifC20DeferredSuperseded", Lemma: "three steps through the real handlers on a controlled agent: value v1 arrives on a not-yet-valid pair B (deferred), value v2 on the valid pair A, then B's own check succeeds: for all values and priorities the final selection is the pair of the greater value — A if v2 > v1 (a superseded deferred nomination does not take the selection back), B otherwise",
 					Bounds: "2 local + 1 remote candidates, 24-bit values, priorities 1..256", MustReach: []string{"superseded", "stale-second", "done"}},
+				{Fn: "verifC20DeferredRearmed", Lemma: "the same not-yet-valid pair B is nominated twice through the real handlers (v1, optionally v2 on the valid pair A in between, then v3 > both on B): the deferred nomination B carries is the latest accepted value, and when B's check succeeds the controlled agent selects B — the pair of the highest value issued",
+					Bounds: "2 local + 1 remote candidates, 24-bit values, priorities 1..256, with and without the nomination in between", MustReach: []string{"other-pair-in-between", "done"}},
 				{Fn: "verifC20ControllingReorder", Lemma: "the controlling side renominates pair A (value v) and then pair B (value v+1) through the real RenominateCandidate; the two authenticated success responses arrive in order or reordered (the older one last): afterwards it sits on B, the pair of the highest value it issued",
 					Bounds: "2 local + 1 remote candidates, any 24-bit starting value, priorities 1..256, both arrival orders", MustReach: []string{"in-order", "reordered", "done"}},
 				{Fn: "verifC20DeferredConsumedOnce", Lemma: "five steps through the real handlers on a controlled agent: a plain USE-CANDIDATE on not-yet-valid P is deferred; P's check succeeds and P is selected; a tick sends a keepalive on P; the peer renominates the valid pair Q and the agent follows; the keepalive's response arrives late: the selection stays on Q for all priorities and values (the deferred nomination was consumed when P became valid)",
